@@ -673,3 +673,43 @@ def r_resolve_index(ctx, repo):
                   'parse_node no longer gives quoted / block scalars the flags (False, True) - %s: they would be resolved like '
                   'plain ones' % detail)
     return rule
+
+
+def r_regex_linear(ctx, repo):
+    """every regular expression of the package that is matched against document text is free of exponential ambiguity."""
+    rule = ctx.rule('R-REGEX-LINEAR', 'no regular expression matched against document text has exponential ambiguity (nested or '
+                                      'overlapping repetitions): CPython\'s backtracking matcher would need exponential time on a '
+                                      'non-matching look-alike, i.e. composing / constructing the document hangs')
+    n = 0
+    for m in repo.modules.values():
+        if m.kind != 'py':
+            continue
+        for x in ast.walk(m.tree):
+            if isinstance(x, ast.Call) and norm(x.func) in ('re.compile', 're.match', 're.search', 're.fullmatch') and x.args:
+                pat = A.const_str(x.args[0])
+                if pat is None:
+                    continue
+                flags = Langs._flags(x) if norm(x.func) == 're.compile' else 0
+                n += 1
+                try:
+                    anchored = pat
+                    # unanchored patterns (search/match on a prefix) are analysed between explicit anchors
+                    if not anchored.lstrip().startswith('^') and not (flags & re.X):
+                        anchored = '^' + anchored
+                    if not anchored.rstrip().endswith('$'):
+                        anchored = anchored + '$' if not (flags & re.X) else anchored.rstrip() + '$'
+                    alpha = RL.Alphabet(RL.points_of(anchored, flags))
+                    why = RL.exponential_ambiguity(alpha, anchored, flags)
+                except AnalysisError as e:
+                    ctx.assume('regular expression at %s:%d is outside the supported syntax (%s): not analysed for backtracking'
+                               % (m.rel, x.lineno, e))
+                    continue
+                if why is None:
+                    rule.ok('%s:%d' % (m.rel, x.lineno), 'pattern %s... is free of exponential ambiguity' % pat.strip()[:30].replace('\n', ' '))
+                else:
+                    rule.fail('regex|%s|%d' % (m.name, n), m.rel, x.lineno, m.name, pat.strip()[:60].replace('\n', ' '),
+                              'the regular expression can match the same text in exponentially many ways (%s): matching it against '
+                              'a long look-alike that finally does not match takes exponential time, so resolving / constructing '
+                              'such a scalar hangs' % why)
+    rule.require_min(6, 'regular expressions')
+    return rule
